@@ -1,0 +1,6 @@
+//go:build !verif
+
+package meter
+
+// simYield is a no-op unless built with the `verif` tag.
+func simYield(string) {}
